@@ -848,4 +848,73 @@ theorem markAsExpanded_spec (T : MesgTable) (st : Struct) (k : Nat) (flag : Bool
     · simp only [↓reduceIte, Nat.testBit_or, testBit_clear, testBit_one_shiftLeft]
       by_cases hk : k = j <;> simp [hk]
 
+/-! ### the specification's "invalid" is the protocol's `Valid` -/
+
+set_option maxRecDepth 4000 in
+/-- for a numeric scalar slot, the typed layer's "invalid" is exactly `proto.Value.Valid(baseType)` of the C06 model -/
+theorem specVal_scalar_eq_valid (s : Slot) (hk : s.kind = .scalar) (hw : s.wf = true) (v : Value)
+    (hv : Value.wf v = true) (ht : typeOf v = s.ptype) :
+    specVal s v = if valid v s.baseType then some v else none := by
+  simp only [Slot.wf, hk, Bool.and_eq_true, beq_iff_eq, bne_iff_ne] at hw
+  obtain ⟨⟨⟨⟨hst, hnb⟩, hd⟩, _⟩, hal⟩ := hw
+  rw [hd, ← ht] at hal
+  simp only [specVal, ht, ne_eq, not_true_eq_false, ↓reduceIte, hk]
+  rw [← ht] at hst hnb
+  cases v <;>
+    simp [typeOf, isScalarType, typeBool, typeInvalid, typeInt8, typeUint8, typeInt16, typeUint16, typeInt32, typeUint32,
+      typeInt64, typeUint64, typeFloat32, typeFloat64, typeString, typeSliceBool, typeSliceInt8, typeSliceUint8,
+      typeSliceInt16, typeSliceUint16, typeSliceInt32, typeSliceUint32, typeSliceInt64, typeSliceUint64,
+      typeSliceFloat32, typeSliceFloat64, typeSliceString] at hst hnb <;>
+    simp [typeOf, mkScalar, align, typeBool, typeInt8, typeUint8, typeInt16, typeUint16, typeInt32, typeUint32,
+      typeInt64, typeUint64, typeFloat32, typeFloat64] at hal <;>
+    simp [Value.wf] at hv <;>
+    (first
+      | (rcases hal with ((h | h) | h) | h <;>
+          simp [h, valid, btInvalid, numOf, btEnum, btByte, btUint8, btUint8z, btSint8, btSint16, btUint16, btUint16z, btSint32,
+            btUint32, btUint32z, btSint64, btUint64, btUint64z, btFloat32, btFloat64, enumInvalid, byteInvalid, uint8Invalid,
+            uint8zInvalid, Nat.mod_eq_of_lt hv])
+      | (rcases hal with h | h <;>
+          simp [h, valid, btInvalid, numOf, btEnum, btByte, btUint8, btUint8z, btSint8, btSint16, btUint16, btUint16z, btSint32,
+            btUint32, btUint32z, btSint64, btUint64, btUint64z, btFloat32, btFloat64, uint16Invalid, uint16zInvalid,
+            uint32Invalid, uint32zInvalid, uint64Invalid, uint64zInvalid, Nat.mod_eq_of_lt hv])
+      | (simp [hal, valid, btInvalid, numOf, btEnum, btByte, btUint8, btUint8z, btSint8, btSint16, btUint16, btUint16z, btSint32,
+            btUint32, btUint32z, btSint64, btUint64, btUint64z, btFloat32, btFloat64, sint8Invalid, sint16Invalid,
+            sint32Invalid, sint64Invalid, float32Invalid, float64Invalid, Nat.mod_eq_of_lt hv]))
+
+theorem specVal_bool_eq_valid (s : Slot) (hk : s.kind = .bool) (hw : s.wf = true) (v : Value) (ht : typeOf v = s.ptype) :
+    specVal s v = if valid v s.baseType then some v else none := by
+  simp only [Slot.wf, hk, Bool.and_eq_true, beq_iff_eq] at hw
+  obtain ⟨⟨hpt, _⟩, _⟩ := hw
+  simp only [specVal, ht, ne_eq, not_true_eq_false, ↓reduceIte, hk]
+  rw [hpt] at ht
+  cases v <;> simp [typeOf, typeBool, typeInvalid, typeInt8, typeUint8, typeInt16, typeUint16, typeInt32, typeUint32, typeInt64, typeUint64, typeFloat32, typeFloat64, typeString, typeSliceBool, typeSliceInt8, typeSliceUint8, typeSliceInt16, typeSliceUint16, typeSliceInt32, typeSliceUint32, typeSliceInt64, typeSliceUint64, typeSliceFloat32, typeSliceFloat64, typeSliceString] at ht
+  rename_i n
+  by_cases h : n < 2 <;> simp [numOf, valid, h]
+
+theorem specVal_time_eq_valid (s : Slot) (hk : s.kind = .time) (hw : s.wf = true) (v : Value)
+    (hv : Value.wf v = true) (ht : typeOf v = s.ptype) :
+    specVal s v = if valid v s.baseType then some v else none := by
+  simp only [Slot.wf, hk, Bool.and_eq_true, beq_iff_eq] at hw
+  obtain ⟨hpt, hbt⟩ := hw
+  simp only [specVal, ht, ne_eq, not_true_eq_false, ↓reduceIte, hk, hbt]
+  rw [hpt] at ht
+  cases v <;> simp [typeOf, typeBool, typeInvalid, typeInt8, typeUint8, typeInt16, typeUint16, typeInt32, typeUint32, typeInt64, typeUint64, typeFloat32, typeFloat64, typeString, typeSliceBool, typeSliceInt8, typeSliceUint8, typeSliceInt16, typeSliceUint16, typeSliceInt32, typeSliceUint32, typeSliceInt64, typeSliceUint64, typeSliceFloat32, typeSliceFloat64, typeSliceString] at ht
+  rename_i n
+  simp [Value.wf] at hv
+  have hm : n % 2 ^ 32 = n := Nat.mod_eq_of_lt (by omega)
+  have hm' : n % 4294967296 = n := by simpa using hm
+  by_cases h : n = uint32Invalid <;> simp [numOf, valid, btUint32, btUint32z, h, hm', uint32Invalid] <;> simp_all [uint32Invalid]
+
+/-- a string the protocol calls valid is kept (the typed layer also keeps the one-NUL string, which `Valid` rejects) -/
+theorem specVal_str_of_valid (s : Slot) (hk : s.kind = .str) (v : Value) (ht : typeOf v = s.ptype)
+    (hval : valid v s.baseType = true) : specVal s v = some v := by
+  simp only [specVal, ht, ne_eq, not_true_eq_false, ↓reduceIte, hk]
+  have : v ≠ .string [] := by
+    intro e; subst e; simp [valid, strValid] at hval
+  simp [this]
+
+/-- an array value of the field's type is always kept, whatever its elements -/
+theorem specVal_slice (s : Slot) (hk : s.kind = .slice) (v : Value) (ht : typeOf v = s.ptype) : specVal s v = some v := by
+  simp only [specVal, ht, ne_eq, not_true_eq_false, ↓reduceIte, hk]
+
 end Fit.Typed
